@@ -2,3 +2,10 @@
 import ZnVerif.Properties.C04
 import ZnVerif.Ops.C04
 import ZnVerif.Ops.Run
+import ZnVerif.Properties.C01
+import ZnVerif.Properties.C02
+import ZnVerif.Properties.C12
+import ZnVerif.Ops.C12
+import ZnVerif.Properties.C07
+import ZnVerif.Properties.C08
+import ZnVerif.Properties.C09
